@@ -63,10 +63,8 @@ def run(prop, tier, seed, replay):
 
     # 3./4. correspondence + property oracle on the implementation
     if replay:
-        case = json.load(open(replay))
-        mod.replay(ctx, case)
-    else:
-        mod.run(ctx)
+        return run_replay(prop, mod, ctx, replay)
+    mod.run(ctx)
 
     # 5. classify
     known = [k for k in core.load_known() if k.get("property") == prop and k.get("kind") == "finding"]
@@ -133,6 +131,35 @@ def run(prop, tier, seed, replay):
     for l in lines:
         print(l, flush=True)
     return exit_code
+
+
+def run_replay(prop, mod, ctx, path):
+    """`./check Cxx --replay FILE`: run the recorded input again on the current tree. Exit 1 (with a VIOLATION line) when it still fails, 0 when it does not.
+    Properties with a replay of their own execute just that input; the others re-run the check with the recorded seed and tier (every random choice derives from
+    the seed, so the same inputs are generated) and look for the recorded input among the violations. Evidence files are not rewritten."""
+    rep = json.load(open(path))
+    canon = lambda x: json.dumps(x, sort_keys=True, default=str)
+    try:
+        rc = mod.replay(ctx, rep)
+        if rc is None:
+            rc = 1 if any(v for v in ctx.violations) else 0
+        print(f"replay: {'still fails' if rc else 'no longer fails'} ({rep.get('clause')})", flush=True)
+    except SystemExit as e:
+        if "re-run" not in str(e):
+            raise
+        ctx2 = core.Ctx(prop, rep.get("tier", ctx.tier), int(rep.get("seed", ctx.seed)))
+        mod.run(ctx2)
+        same = [v for v in ctx2.violations if v.clause == rep.get("clause") and canon(v.case) == canon(rep.get("case"))]
+        clause = [v for v in ctx2.violations if v.clause == rep.get("clause")]
+        if same:
+            print(f"replay: the recorded input still fails ({rep.get('clause')})", flush=True); rc = 1
+        elif clause:
+            print(f"replay: the recorded input is no longer reported, but the same clause fails on {len(clause)} other input(s) of that run ({rep.get('clause')})", flush=True); rc = 1
+        else:
+            print(f"replay: not reproduced — the recorded input no longer fails ({rep.get('clause')})", flush=True); rc = 0
+    if rc:
+        print(f"VIOLATION property={prop} replay={path}" + ("" if rep.get("failing_input_found", True) else " no-failing-input-found"), flush=True)
+    return rc
 
 
 def write_replay(prop, seed, tier, v, unchecked):
